@@ -318,4 +318,65 @@ example :
     s.stuck = false ∧ tags s.gone = [2, 5, 1, 3, 4, 6, 7, 8] ∧ s.launched = 8 := by
   decide
 
+/-! ## the execution context does not matter -/
+
+private theorem step_query (s : St) : step s .query = s := by
+  unfold step; split <;> rfl
+
+private theorem run_queries (s : St) (qs : List Op) (h : ∀ q ∈ qs, q = .query) : run s qs = s := by
+  induction qs with
+  | nil => rfl
+  | cons q qs ih =>
+    have hq : q = .query := h q (List.mem_cons_self ..)
+    subst hq
+    simp only [run, List.foldl_cons, step_query]
+    exact ih (fun q hq => h q (List.mem_cons_of_mem _ hq))
+
+private theorem enter_queries (c : Ctx) : ∀ q ∈ c.enter, q = .query := by
+  cases c <;> simp [Ctx.enter]
+
+private theorem leave_queries (c : Ctx) : ∀ q ∈ c.leave, q = .query := by
+  cases c <;> simp [Ctx.leave]
+
+/-- **The result does not depend on the context wrapper.**  For every context executed by the
+current shell (function, two functions deep, `eval`, brace group with redirects, loop body, last
+pipeline stage under `lastpipe`, trap handler, sourced file), every state and every sequence of
+job-table operations: issuing the operations from inside the context gives exactly the state that
+issuing them at top level gives — launches get the same numbers, `wait` waits for the same jobs
+and blocks in the same cases, polls and sweeps remove the same jobs. -/
+theorem context_does_not_matter (c : Ctx) (hc : c.forks = false) (s : St) (ops : List Op) :
+    runIn c s ops = run s ops := by
+  simp only [runIn, hc, Bool.false_eq_true, if_false, wrap, run, List.foldl_append]
+  have h1 := run_queries s c.enter (enter_queries c)
+  simp only [run] at h1
+  rw [h1]
+  have h2 := run_queries (List.foldl step s ops) c.leave (leave_queries c)
+  simp only [run] at h2
+  exact h2
+
+/-- three jobs launched and waited for from two functions deep: the state the theorem speaks about
+is a real one (numbers 1 2 3, everything removed by the `wait`) -/
+example :
+    let ops : List Op := [.launch 1 false, .launch 1 false, .finish 1, .poll, .launch 1 false, .waitAll [3, 2]]
+    (runIn .func2 (init .maxPlus1) ops).gone.map (fun j => (j.id, j.tag)) = [(1, 1), (2, 2), (3, 3)] ∧
+    (runIn .func2 (init .maxPlus1) ops).table = [] ∧ (wrap .func2 ops).length = ops.length + 4 := by
+  decide
+
+/-- **A subshell / command substitution has its own, empty job table**: a `wait` issued there
+returns at once whatever the parent's unfinished jobs (it cannot wait for them), and the parent's
+table is untouched. -/
+theorem wait_in_a_forked_context_ignores_the_parents_jobs (c : Ctx) (hc : c.forks = true) (s : St)
+    (hs : s.stuck = false) (sched : List Nat) :
+    (runIn c s [.waitAll sched]).stuck = false ∧ (runIn c s [.waitAll sched]).table = s.table ∧
+    (runIn c s [.waitAll sched]).gone = s.gone := by
+  simp [runIn, hc, run, step, forkChild, joinChild, hs, waitAll, waitJobs, sweep]
+
+/-- the parent has an unfinished job (task 1 never completes): its own `wait` would block, the
+subshell's does not -/
+example :
+    let s := run (init .maxPlus1) [.launch 1 false]
+    (run s [.waitAll []]).stuck = true ∧ (runIn .subshell s [.waitAll []]).stuck = false ∧
+    (runIn .subshell s [.waitAll []]).table = s.table := by
+  decide
+
 end BrushVerif.C17
